@@ -17,7 +17,7 @@ import (
 func init() {
 	register(&Prop{
 		ID: "C12", Level: "exploration",
-		Rule: "one case = 1-3 client tasks and an optional writer task under the seeded scheduler; every request carries a unique token in every observable field (parameter values, path, query string, request header, host label) and its handler derives response header, status and body length from the token; request shapes are drawn from direct match, ignored trailing slash (parameters come from the slash-adjusted copy), redirect, 404/405/OPTIONS handlers, manual Lookup with and without Close, CloneWith and Clone, a handler that hijacks its connection; iterator sequences (Iter.Reverse/Routes/Prefix) obtained earlier by the task and ranged again inside a later handler or while a Lookup context is held (must yield what they yielded first and leave the request's context alone); handlers yield so that other requests start, finish and recycle contexts in between, and the writer task replaces the tree between requests (contexts are pooled per tree version). Oracle inside every handler, before and after each yield: every Context getter shows the current request's token and nothing of another request; writer status/size/written start clean; route, pattern, scope as the reference dispatcher says. A Clone taken in request A is re-inspected after every later request of its task and at the end: identical to its first fingerprint and free of any other token (including response headers). Non-trivial: a context was re-observed after another task ran, or a clone was re-inspected after a later request; distinct = hash of (programs, schedule).",
+		Rule: "one case = 1-3 client tasks and an optional writer task under the seeded scheduler; every request carries a unique token in every observable field (parameter values, path, query string, request header, host label) and its handler derives response header, status and body length from the token; request shapes are drawn from direct match, ignored trailing slash (parameters come from the slash-adjusted copy), redirect, 404/405/OPTIONS handlers, manual Lookup with and without Close, CloneWith and Clone, a handler that hijacks its connection; iterator sequences (Iter.Reverse/Routes/Prefix) obtained earlier by the task and ranged again inside a later handler or while a Lookup context is held (must yield what they yielded first and leave the request's context alone); handlers yield so that other requests start, finish and recycle contexts in between, and the writer task replaces the tree between requests (contexts are pooled per tree version). Oracle inside every handler, before and after each yield: every Context getter shows the current request's token and nothing of another request; writer status/size/written start clean; route, pattern, scope as the reference dispatcher says. A Clone taken in request A (before or after the response was written; in the latter case the live request's URL and headers are then rewritten in place) is re-inspected after every later request of its task and at the end: identical to its first fingerprint and free of any other token (including response headers). Non-trivial: a context was re-observed after another task ran, or a clone was re-inspected after a later request; distinct = hash of (programs, schedule).",
 		Run:  runC12, Quick: 64000, Thorough: 9600000,
 		Real:   []string{"request Context and its reset variants", "sync.Pool recycling per tree version (deterministic: GOMAXPROCS=1, GC off during a run)", "Clone/CloneWith", "ServeHTTP dispatch", "recorder ResponseWriter"},
 		Stub:   commonStub,
@@ -173,6 +173,7 @@ func runC12(src sim.Source, o Opts) *Result {
 		Yields  int
 		Rerange bool // range the task's kept iterator sequences again while this request is in flight
 		CloneLate bool // shape clone: the clone is taken after the response was written, then the original's headers change
+		MutReq    bool // with CloneLate: the live request's URL and headers are then rewritten in place
 		NoQuery bool // the request has no query string; its handler writes a value of its own into QueryParams()
 		Var     int  // generated routes: which parameters take a value that is also a static text (drives backtracking)
 	}
@@ -180,7 +181,7 @@ func runC12(src sim.Source, o Opts) *Result {
 	plans := make([][]reqPlan, nclients)
 	for c := range plans {
 		for i, n := 0, 2+src.Intn("nreq", 6); i < n; i++ {
-			plans[c] = append(plans[c], reqPlan{Shape: sim.Pick(src, "shape", shapes), Route: src.Intn("route", len(routes)), Yields: src.Intn("yields", 3), Rerange: src.Intn("rerange", 3) == 0, NoQuery: src.Intn("noquery", 4) == 0, CloneLate: sim.Bool(src, "clonelate"), Var: sim.Pick(src, "pvar", []int{0, 0, 1, 2, 3, 5, 6, 7})})
+			plans[c] = append(plans[c], reqPlan{Shape: sim.Pick(src, "shape", shapes), Route: src.Intn("route", len(routes)), Yields: src.Intn("yields", 3), Rerange: src.Intn("rerange", 3) == 0, NoQuery: src.Intn("noquery", 4) == 0, CloneLate: sim.Bool(src, "clonelate"), MutReq: sim.Bool(src, "mutreq"), Var: sim.Pick(src, "pvar", []int{0, 0, 1, 2, 3, 5, 6, 7})})
 		}
 	}
 	withWriter := src.Intn("writer", 2) == 1
@@ -346,6 +347,14 @@ func runC12(src sim.Source, o Opts) *Result {
 							c.SetHeader("X-After-Clone", tok)
 							c.Writer().Header().Del("X-Resp")
 							c.SetHeader("X-Resp", tok)
+							if pl.MutReq {
+								// ... and when a later stage rewrites the live request in place (prefix stripping, credential
+								// scrubbing): the clone owns its copy of URL and headers
+								r := c.Request()
+								r.URL.Path = "/rewritten"
+								r.URL.RawQuery = "tok=rewritten"
+								r.Header.Set("X-Token", "rewritten")
+							}
 							return
 						}
 					}
